@@ -10,7 +10,9 @@ def flow_cases(tier, tag):
     sres = run_tlc("Gen_Flow", cfg="Gen_Flow_sim", simulate=nsim, depth=40, workers=4,
                    seed_=seed() * 7919 + 13, timeout=3000, heap="6g")
     sim = sres.tagged("CASE")
-    cases, ress = [], [sres]
+    bres = tlc_generate("Gen_Branch")
+    cases = [dict(text=c["text"], syms=[], pos=[0, 0, 0, 0, 0], shape="branch:" + c["op"] + ":" + c["pat"], n=0) for c in bres[0]]
+    ress = [sres, bres[1]]
     if tier == "thorough":
         cases, gres = tlc_generate("Gen_Flow", coverage=False, heap="8g", timeout=3000)
         ress.append(gres)
@@ -32,7 +34,9 @@ def run_flow(pid, tier, replay, prefix):
         out.add_tlc(r)
     metas = [{k: c[k] for k in ("syms", "pos", "shape", "n")} for c in cases]
     texts = [c["text"] for c in cases]
-    for name, text in corpus.all_programs().items():
+    progs = dict(corpus.all_programs())
+    progs.update({"exit-%d" % i: t for i, t in enumerate(corpus.EXIT_PROGRAMS)})
+    for name, text in progs.items():
         texts.append(text)
         metas.append({"syms": [], "pos": [0, 0, 0, 0, 0], "shape": "corpus:" + name, "n": 0})
     if replay:
